@@ -123,14 +123,18 @@ Look(S, i) == [S EXCEPT !.la = Max2(@, i)]
 StartTok(S) == [S EXCEPT !.ts = S.pos]
 PkOf(ty) == IF ty \in {"IntegerLiteral", "MacroVarResolve"} THEN "i"
             ELSE IF ty \in {"FloatLiteral", "FloatExponentLiteral"} THEN "f" ELSE "n"
-Tk(ty, ch, c) == [ty |-> ty, ch |-> ch, c |-> c, pk |-> PkOf(ty), ps |-> 0, pe |-> 0]
+\* pi: the integer payload as a sequence of decimal digits (<<>>: none, or not modelled)
+Tk(ty, ch, c) == [ty |-> ty, ch |-> ch, c |-> c, pk |-> PkOf(ty), ps |-> 0, pe |-> 0, pi |-> <<>>]
+SmallDigits(v) == IF v >= 10 THEN <<v \div 10, v % 10>> ELSE <<v>>
+\* sets the integer payload of the token emitted last
+SetPi(S, ds) == [S EXCEPT !.toks[Len(S.toks)].pi = ds]
 Emit(S, ch, ty) == [S EXCEPT !.toks = Append(@, Tk(ty, ch, S.ts))]
 EmitD(S, ty) == Emit(S, "DEFAULT", ty)
 EmitAt(S, ch, ty, c) == [S EXCEPT !.toks = Append(@, Tk(ty, ch, c))]
 \* a token with a string payload of n bytes appended to the literal buffer (n < 0: no payload)
 EmitS(S, ty, n) ==
   IF n < 0 THEN EmitD(S, ty)
-  ELSE [S EXCEPT !.toks = Append(@, [ty |-> ty, ch |-> "DEFAULT", c |-> S.ts, pk |-> "s", ps |-> S.nlit, pe |-> S.nlit + n]),
+  ELSE [S EXCEPT !.toks = Append(@, [ty |-> ty, ch |-> "DEFAULT", c |-> S.ts, pk |-> "s", ps |-> S.nlit, pe |-> S.nlit + n, pi |-> <<>>]),
                  !.nlit = @ + n]
 \* payload length of quote-collapsed text T[a..b): -1 when nothing was collapsed
 QPay(T, q, a, b) == LET r == QScan(T, q, a, b, FALSE, 0) IN IF r[1] THEN r[2] ELSE 0 - 1
@@ -142,8 +146,8 @@ LastDef(S) == LET i == LastDefIdx(S.toks, Len(S.toks)) IN IF i = 0 THEN "None" E
 \* update_last_token: type, channel and payload (n bytes appended to the literal buffer; n < 0: none)
 UpdateLast(S, ch, ty, n) ==
   IF S.toks = <<>> THEN EmitS(EmitErr(Fault(S, "NoTokenToReplace"), "InternalErrorNoTokenToReplace"), ty, n)
-  ELSE IF n < 0 THEN [S EXCEPT !.toks[Len(S.toks)] = [@ EXCEPT !.ty = ty, !.ch = ch, !.pk = PkOf(ty), !.ps = 0, !.pe = 0]]
-  ELSE [S EXCEPT !.toks[Len(S.toks)] = [@ EXCEPT !.ty = ty, !.ch = ch, !.pk = "s", !.ps = S.nlit, !.pe = S.nlit + n],
+  ELSE IF n < 0 THEN [S EXCEPT !.toks[Len(S.toks)] = [@ EXCEPT !.ty = ty, !.ch = ch, !.pk = PkOf(ty), !.ps = 0, !.pe = 0, !.pi = <<>>]]
+  ELSE [S EXCEPT !.toks[Len(S.toks)] = [@ EXCEPT !.ty = ty, !.ch = ch, !.pk = "s", !.ps = S.nlit, !.pe = S.nlit + n, !.pi = <<>>],
                  !.nlit = @ + n]
 
 Pend(S) == S.pend[Len(S.pend)] = 1
@@ -284,7 +288,7 @@ ResolveOps(n) == LET S8 == {i \in 0..12 : (n \div (2^i)) % 2 = 1} IN
 RECURSIVE EmitResolves(_, _, _)
 EmitResolves(S, ops, j) ==
   IF j > Len(ops) THEN S
-  ELSE EmitResolves(StartTok(EmitD(Adv(S, 2^(ops[j])), "MacroVarResolve")), ops, j + 1)
+  ELSE EmitResolves(StartTok(SetPi(EmitD(Adv(S, 2^(ops[j])), "MacroVarResolve"), SmallDigits(ops[j]))), ops, j + 1)
 \* the body loop of lex_macro_var_expr; stk is the resolve-op stack
 RECURSIVE MVarLoop(_, _, _)
 MVarLoop(S, T, stk) ==
@@ -466,7 +470,8 @@ LexIdentifier(S, T) ==
 \* lex_numeric_literal (cursor at a digit, or at '.' followed by a digit)
 LexNumeric(S, T) ==
   LET R == RefNum(T.cs, S.pos + 1)
-      S1 == EmitD(Look([S EXCEPT !.pos = R.end - 1], R.end + 1), R.ty)
+      S0 == EmitD(Look([S EXCEPT !.pos = R.end - 1], R.end + 1), R.ty)
+      S1 == IF R.ty = "IntegerLiteral" /\ R.errs = {} THEN SetPi(S0, IntDigits(T.cs, S.pos + 1, R)) ELSE S0
       S2 == IF "InvalidNumericLiteral" \in R.errs THEN EmitErr(S1, "InvalidNumericLiteral") ELSE S1
   IN IF "UnterminatedHexNumericLiteral" \in R.errs THEN EmitErr(S2, "UnterminatedHexNumericLiteral") ELSE S2
 
@@ -700,7 +705,8 @@ LexEvalString(S, T, fl, termComma) ==
       txt == SubSeq(T.cs, S.ts + 1, endp)
       ascii == \A j \in S.ts..endp-1 : Cl(T, j) = 0
       num == IF r[3] /\ ascii THEN WholeNumeric(txt, EvFloat(fl)) ELSE ""
-      S2 == IF endp > S.ts THEN EmitD(S1, IF num = "" THEN "MacroString" ELSE num) ELSE S1
+      S2a == IF endp > S.ts THEN EmitD(S1, IF num = "" THEN "MacroString" ELSE num) ELSE S1
+      S2 == IF endp > S.ts /\ num = "IntegerLiteral" THEN SetPi(S2a, IntDigits(txt, 1, RefNum(txt, 1))) ELSE S2a
   IN IF wsm >= 0 THEN EmitAt(S2, "HIDDEN", "WS", wsm) ELSE S2
 
 \* the mode for the argument that follows an expression argument
